@@ -267,7 +267,7 @@ func levelByName(ls []c04Level, n string) *c04Level {
 }
 
 func runC04Case(id string, c *c04Case) {
-	defer recoverCase(id, c)
+	defer watchCase(id, c)()
 	rx := map[string]string{}
 	for _, e := range loadRegexes() {
 		rx[e.Name] = e.Src
